@@ -21,7 +21,7 @@ SPEC = {
         {"kind": "PI", "type": "(list cval * option str * option str * list str)", "eval": "check_pi", "per_shard": 200},
     ],
     "classes": {1: "opaque-nonfinite-float", 2: "opaque-unserializable-value", 3: "opaque-lossy-json-float"},
-    "n_quick": 1200, "n_thorough": 30000,
+    "n_quick": 1200, "n_thorough": 4800,
     "level": "proof",
     "what_violation": "cursor does not round-trip / pagination arguments not checked as specified",
     "rule": ("every CursorType impl (12 integer types, f32, f64, bool, char, String, ID, OpaqueCursor over a nested serde enum): "
